@@ -28,7 +28,7 @@ func (s *Store) GCStep(ctx context.Context) int {
 	sort.Slice(keys, func(i, j int) bool { return keys[i].String() < keys[j].String() })
 	record := func(verb string, key Key, pre, post Obj) {
 		req := &Request{Actor: "gc", Pass: pass, Role: "gc", Verb: verb, Key: key, Pre: pre, Post: post, Changed: true}
-		if k, ok := s.kinds[schema.GroupKind{Group: key.Group, Kind: key.Kind}]; ok {
+		if k, ok := s.kind(schema.GroupKind{Group: key.Group, Kind: key.Kind}); ok {
 			req.GVK = k.GVK
 		}
 		s.recordLocked(req)
@@ -45,7 +45,7 @@ func (s *Store) GCStep(ctx context.Context) int {
 			if i := strings.IndexByte(apiVersion, '/'); i >= 0 {
 				group = apiVersion[:i]
 			}
-			if ki, known := s.kinds[schema.GroupKind{Group: group, Kind: kind}]; known && ki.Namespaced && dep.Namespace == "" {
+			if ki, known := s.kind(schema.GroupKind{Group: group, Kind: kind}); known && ki.Namespaced && dep.Namespace == "" {
 				return false, false, nil, Key{}
 			}
 			return false, true, nil, Key{}
@@ -96,7 +96,7 @@ func (s *Store) GCStep(ctx context.Context) int {
 		if unresolvable {
 			continue
 		}
-		k := s.kinds[schema.GroupKind{Group: key.Group, Kind: key.Kind}]
+		k, _ := s.kind(schema.GroupKind{Group: key.Group, Kind: key.Kind})
 		if k == nil {
 			continue
 		}
